@@ -120,6 +120,22 @@ def run(check: Check):
   _confusion(check)
 
 
+def _is_target(ff: FuncFlow, e: ast.AST) -> bool:
+  """e is (a copy of) example[self.target_key]."""
+  for x in ff.expand(e):
+    if isinstance(x, ast.Subscript) and _self_field(x.slice) == 'target_key' and ff.param_of(x.value) is not None:
+      continue
+    return False
+  return True
+
+
+def _refs_logits_mask(ff: FuncFlow, e: ast.AST) -> bool:
+  for x in ff.deep_walk(e):
+    if _self_field(x) == 'logits_mask':
+      return True
+  return False
+
+
 def _slices(s: ast.AST) -> List[ast.Slice]:
   if isinstance(s, ast.Slice):
     return [s]
@@ -237,9 +253,12 @@ def _logits_mask_order(check: Check, ev: FuncInfo, ff: FuncFlow):
   for n in ff.cfg.nodes:
     if n.kind == 'stmt' and isinstance(n.ast, (ast.AugAssign, ast.Assign)):
       a = n.ast
-      names = {x.id for x in ast.walk(a) if isinstance(x, ast.Name)}
-      if 'logits_mask' in names and (isinstance(a, ast.AugAssign) and isinstance(a.op, ast.Add) or isinstance(a, ast.Assign) and isinstance(
-          a.value, ast.BinOp) and isinstance(a.value.op, ast.Add)):
+      is_add = isinstance(a, ast.AugAssign) and isinstance(a.op, ast.Add) or (isinstance(a, ast.Assign) and isinstance(
+          a.value, ast.BinOp) and isinstance(a.value.op, ast.Add))
+      if not is_add:
+        continue
+      operand = a.value if isinstance(a, ast.AugAssign) else a.value
+      if _refs_logits_mask(ff, operand):
         tgt = a.target if isinstance(a, ast.AugAssign) else a.targets[0]
         if isinstance(tgt, ast.Name):
           aug = (n, tgt.id)
@@ -291,16 +310,21 @@ def _get_target_weight(check: Check):
   ff = FuncFlow.of(repo, fi)
   check.analysed(fi)
   ok = False
+  acc_name = None
   for n in ff.cfg.nodes:
-    if n.kind == 'stmt' and isinstance(n.ast, ast.AugAssign) and isinstance(n.ast.op, ast.Mult):
+    if n.kind == 'stmt' and isinstance(n.ast, ast.AugAssign) and isinstance(n.ast.op, ast.Mult) and isinstance(n.ast.target, ast.Name):
       v = n.ast.value
       loop = wmean._loop_of(ff, n.ast)
       if isinstance(v, ast.Compare) and isinstance(v.ops[0], ast.NotEq) and isinstance(loop, ast.For) and ff.param_of(
-          loop.iter) == fi.positional_params[1] and ff.param_of(v.left) == fi.positional_params[0]:
+          loop.iter) == fi.positional_params[1] and ff.param_of(v.left) == fi.positional_params[0] and isinstance(
+              loop.target, ast.Name) and txt(v.comparators[0]) == loop.target.id:
         ok = True
-  init_ok = any(d.kind == 'assign' and isinstance(d.value, ast.Call) and ff.ext(d.value.func) == 'jax.numpy.ones_like'
-                for ds in ff.rd.defs_at.values() for d in ds if d.name == 'target_weight')
-  check.ob('R-FOLD.mask', fi, 'target_weight *= target != mv', ok and init_ok,
+        acc_name = n.ast.target.id
+  init_ok = acc_name is not None and any(d.kind == 'assign' and isinstance(d.value, ast.Call) and ff.ext(d.value.func) == 'jax.numpy.ones_like'
+                                         for ds in ff.rd.defs_at.values() for d in ds if d.name == acc_name)
+  ret_ok = any(isinstance(rv, ast.Name) and rv.id == acc_name for _, rv in ff.returns())
+  ok = ok and ret_ok
+  check.ob('R-FOLD.mask', fi, 'weight *= target != masked_value', ok and init_ok,
            'a position is unmasked iff it differs from every masked value: conjunction of inequalities starting from ones')
 
 
@@ -317,7 +341,7 @@ def _accuracy(check: Check):
         if isinstance(x, ast.Compare) and isinstance(x.ops[0], ast.Eq):
           sides = [x.left, x.comparators[0]]
           am = [s for s in sides if isinstance(s, ast.Call) and ff.ext(s.func) in ARGMAX]
-          tg = [s for s in sides if isinstance(s, ast.Name) and s.id == 'target']
+          tg = [s for s in sides if isinstance(s, ast.Name) and _is_target(ff, s)]
           if am and tg:
             ax = next((k.value for k in am[0].keywords if k.arg == 'axis'), None)
             ok = ax is None or (isinstance(ax, ast.UnaryOp) and isinstance(ax.operand, ast.Constant) and ax.operand.value == 1)
@@ -337,7 +361,7 @@ def _confusion(check: Check):
         r, col = sub.slice.elts
         one = c.args and isinstance(c.args[0], ast.Constant) and c.args[0].value == 1
         col_ok = any(isinstance(x, ast.Call) and ff.ext(x.func) in ARGMAX for x in ff.expand(col))
-        ok = isinstance(r, ast.Name) and r.id == 'target' and col_ok and one
+        ok = isinstance(r, ast.Name) and _is_target(ff, r) and col_ok and one
   check.ob('R-ORDER.confusion', ev, 'zeros.at[target, argmax(pred)].set(1)', ok,
            'one count at row = target, column = predicted class, all other cells zero')
   # shape validation raises
